@@ -262,36 +262,56 @@ def check(ctx):
            "exactly one counter-signature is emitted inline (element 0), any other number as an array", where=f.span, detail={"forms": kinds})
 
 
+def _emptiness_table(fn, pv, base_ok):
+    """per-field emptiness tests of `fn` (calls of is_empty / is_none / is_some / len on a field of the header) and the values
+    each takes for an empty and for a populated field: ({bb: field}, {bb: (when_empty, when_populated)})"""
+    fields, vals = {}, {}
+    for bb, t in fn.calls():
+        name = (callee_path(t) or "").split("::")[-1]
+        if name not in ("is_empty", "is_none", "is_some", "len") or not t["args"]:
+            continue
+        lv = pv._borrowed_lvalue(t["args"][0], bb)
+        if lv[0] == "field" and base_ok(lv[1]):
+            fields[bb] = lv[2]
+            vals[bb] = {"is_empty": (True, False), "is_none": (True, False), "is_some": (False, True), "len": (0, 1)}[name]
+    return fields, vals
+
+
+def _is_empty_truth_table(fn, pv, base_ok, allf):
+    fields, vals = _emptiness_table(fn, pv, base_ok)
+    if sorted(fields.values()) != allf:
+        return False, fields
+    empty = {b: v[0] for b, v in vals.items()}
+    ok = return_values(fn, empty) == {True}
+    for b in vals:
+        a = dict(empty)
+        a[b] = vals[b][1]
+        ok = ok and return_values(fn, a) == {False}
+    return ok, fields
+
+
 def check_is_empty(ctx, rule):
-    """Header::is_empty() truth table over its per-field tests + ProtectedHeader::is_empty delegation"""
-    prog = ctx.prog
+    """Header::is_empty() truth table over its per-field tests + ProtectedHeader::is_empty delegation.  Decided in the
+    net-effect view, so `self.len() == 0` with `len()` a sum of `usize::from(<field populated>)` and `rest.len()` is the same
+    function as the conjunction of the per-field tests"""
+    prog = ctx.prog.view("all")
     ie = prog.fn("header::Header::is_empty")
     pv = Prov(ie)
-    atoms = {}
-    fields = {}
-    for bb, t in ie.calls():
-        name = callee_path(t) or ""
-        if name.endswith("::is_empty") or name.endswith("::is_none"):
-            lv = pv._borrowed_lvalue(t["args"][0], bb)
-            if lv[0] == "field" and lv[1] in (("deref", ("param", 0)), ("param", 0)):
-                atoms[bb] = True
-                fields[bb] = lv[2]
     allf = sorted(prog.struct_fields("header::Header") or [])
-    ok = sorted(fields.values()) == allf
-    if ok:
-        ok = return_values(ie, atoms) == {True}
-        for b in atoms:
-            a = dict(atoms)
-            a[b] = False
-            ok = ok and return_values(ie, a) == {False}
+    ok, fields = _is_empty_truth_table(ie, pv, lambda b: b in (("deref", ("param", 0)), ("param", 0)), allf)
     ctx.ob(rule, "is_empty-covers-all-fields", ok,
            "Header::is_empty() is true iff every one of the 8 fields is absent/empty (truth table: all-empty -> true, any single field "
            "non-empty -> false)", where=ie.span, detail={"tested_fields": sorted(fields.values()), "struct": allf},
            sample={"tested_fields": sorted(fields.values())})
     pie = prog.fn("header::ProtectedHeader::is_empty")
-    rt = Prov(pie).return_term()
-    ctx.ob(rule, "protected-is_empty", is_call(rt, "header::Header::is_empty") and show(rt[2][0]).endswith(".header"),
-           "ProtectedHeader::is_empty() = self.header.is_empty()", where=pie.span, detail={"return": show(rt)})
+    ppv = Prov(pie)
+    rt = ppv.return_term()
+    okp = is_call(rt, "header::Header::is_empty") and show(rt[2][0]).endswith(".header")
+    if not okp:
+        # not a delegation: the same truth table over the fields of self.header
+        okp, _ = _is_empty_truth_table(pie, ppv, lambda b: b in (("field", ("deref", ("param", 0)), "header"), ("field", ("param", 0), "header")), allf)
+    ctx.ob(rule, "protected-is_empty", okp,
+           "ProtectedHeader::is_empty() = self.header.is_empty()", where=pie.span, detail={"return": show(rt)[:200]})
 
 
 def check_cbor_bstr(ctx, rule):
